@@ -1,4 +1,4 @@
-import FluteModel.Lemmas.SessionRun
+import FluteModel.Lemmas.SessionStream
 import FluteModel.Lemmas.SessionCodec
 /-
   C16 — carousel late join: a receiver that starts listening at any packet boundary delivers every
@@ -52,6 +52,52 @@ theorem late_join_two_cycles (c : Codec) (rc : RxCfg) (o : ObjCfg)
     intro q hq
     rw [mem_pktSyms] at hq ⊢
     simp [hq]
+
+/-- **C16, stream level (FullFDT carousel), every join offset.**  `stream` = what the sender emits,
+    `j` = the join offset (ANY), `n` = how much the late joiner is fed, written `ps1 ++ ps2` at the end of
+    the first full cycle after the join: `ps1` contains a whole transfer of an FDT instance `f` (hence
+    decodable symbols of each of its blocks: `hwhole`), `ps2` - the second full cycle - a whole transfer of
+    the object (hence decodable symbols of each block: `hcycle`).  Carousel packets carry no close-object
+    flag (`hcar`; the lone packet of an EMPTY object does - finding D14 - hence `hN`).  Then the object
+    writer gets `complete`. -/
+theorem late_join_two_cycles_stream (cF cO : Codec) (rc : RxCfg) (s : SessCfg) (o : ObjCfg)
+    (hto : o.toi ≠ 0) (hN : o.ks.isEmpty = false) (hfit : Fits rc o)
+    (hall : ∀ f, f ∈ s.fdts → f.files.contains o.toi = true)
+    (f : FdtCfg) (hfind : s.fdts.find? (fun x => x.id == f.id) = some f)
+    (hfN : f.ks.isEmpty = false) (hflook : f.ks.size ≤ rc.maxLook)
+    (hfresh : blockDone cF.canDecode f.ks s.fdtP [] 0 = false)
+    (stream : List Pkt) (j n : Nat) (ps1 ps2 : List Pkt)
+    (hjoin : (stream.drop j).take n = ps1 ++ ps2)
+    (hgenF : ∀ p, p ∈ stream → p.toi = 0 → p.fdtId = f.id → Genuine (fdtObj s f) (toSym p) ∧ p.close = false)
+    (hgenO : ∀ q, q ∈ osyms o stream → Genuine o q)
+    (hcar : ∀ q, q ∈ osyms o stream → q.close = false)
+    (hwhole : AllDec cF (fdtObj s f) (fsyms f.id ps1))
+    (hcycle : AllDec cO o (osyms o ps2))
+    (hsome : osyms o ps2 ≠ []) :
+    1 ≤ (observe cF.canDecode cO.canDecode rc s o ((stream.drop j).take n)).completes := by
+  have hmem : ∀ p, p ∈ ps1 ++ ps2 → p ∈ stream := by
+    intro p hp; rw [← hjoin] at hp
+    exact List.mem_of_mem_drop (List.mem_of_mem_take hp)
+  have hnc : ∀ q, q ∈ osyms o (ps1 ++ ps2) → q.close = false := by
+    intro q hq
+    obtain ⟨p, hp, ht, rfl⟩ := mem_osyms.mp hq
+    exact hcar _ (mem_osyms.mpr ⟨p, hmem p hp, ht, rfl⟩)
+  rw [hjoin]
+  apply stream_core cF cO rc s o hto hN hfit hall f hfind hfN hflook hfresh ps1 ps2
+  · intro p hp; exact hgenF p (hmem p (List.mem_append_left _ hp))
+  · exact hwhole
+  · intro q hq; exact hnc q (by rw [osyms_append]; exact List.mem_append_left _ hq)
+  · intro q hq
+    obtain ⟨p, hp, ht, rfl⟩ := mem_osyms.mp hq
+    exact hgenO _ (mem_osyms.mpr ⟨p, hmem p hp, ht, rfl⟩)
+  · intro a q b hab hq
+    have : q ∈ osyms o (ps1 ++ ps2) := by rw [hab]; simp
+    rw [hnc q this] at hq; exact absurd hq (by simp)
+  · apply allDec_mono cO o _ _ _ hcycle
+    intro q hq; rw [osyms_append]; exact List.mem_append_right _ hq
+  · rw [osyms_append]
+    intro h
+    exact hsome (List.append_eq_nil_iff.mp h).2
 
 /-! ### finding D14: the empty object -/
 
